@@ -122,6 +122,26 @@ def check_pair(tw, template, substrate, fails, tags):
             continue
         want_sub = chem.canon_nostereo(substrate)
         fsub = chem.formula(substrate)
+        # the same substrate handed over as a graph whose node ids have a gap (1..k-1, k+1..n+1: the id n+1 is taken): proposals must be the same
+        if strategy == "all" and not invert:
+            try:
+                from synkit.IO.chem_converter import smiles_to_graph
+                g0 = smiles_to_graph(substrate, drop_non_aam=False, use_index_as_atom_map=False)
+                ids = sorted(g0.nodes())
+                if len(ids) >= 2:
+                    k = ids[len(ids) // 2]
+                    m = {i: (i if i < k else i + 1) for i in ids}
+                    gg = nx.relabel_nodes(g0, m, copy=True)
+                    for n_, d_ in gg.nodes(data=True):
+                        if "atom_map" in d_:
+                            d_["atom_map"] = n_
+                    alt = SynReactor(substrate=gg, template=template, invert=invert, explicit_h=explicit_h, implicit_temp=implicit_temp, strategy=strategy)
+                    a = sorted(chem.canon_nostereo(x.split(">>")[0]) + ">>" + chem.canon_nostereo(x.split(">>")[1]) for x in alt.smarts_list)
+                    b = sorted(chem.canon_nostereo(x.split(">>")[0]) + ">>" + chem.canon_nostereo(x.split(">>")[1]) for x in results)
+                    if a != b:
+                        bad("substrate graph with a gap in its node ids: %d proposals %s, SMILES input: %d %s" % (len(a), a[:2], len(b), b[:2]), "gapped-ids")
+            except Exception as ex:
+                bad("substrate graph with a gap in its node ids raised %r" % (ex,), "gapped-ids")
         # the glued ITS graphs themselves (before serialisation, which silently drops graphs it cannot write): hydrogens, charge and
         # heavy atoms of the reactant side are the substrate's, and the product side conserves them
         try:
